@@ -158,3 +158,97 @@ Proof.
     assert (N2 : ~ In v (map fst (rhs2 cfg))) by (intro; apply Hnin; apply in_or_app; tauto).
     rewrite (deg2_notin _ _ N1). now rewrite wsum_notin.
 Qed.
+
+(* the lattice edge of local edge e joins exactly the two corners of msPairTable[e] *)
+Definition pt2_eqb (p q : pt2) : bool := (fst p =? fst q) && (snd p =? snd q).
+Lemma pt2_eqb_eq p q : pt2_eqb p q = true <-> p = q.
+Proof.
+  destruct p as [px py], q as [qx qy]; unfold pt2_eqb; cbn [fst snd]. rewrite !andb_true_iff, !Z.eqb_eq.
+  split; [intros [-> ->]; reflexivity | intros [= -> ->]; auto].
+Qed.
+Definition sq_ledge_ends_check (e : N) : bool :=
+  let '(a, b) := sq_pair_of e in
+  let v := sq_ledge e in
+  (a <? 4)%N && (b <? 4)%N &&
+  ((pt2_eqb (fst v) (sq_corner_off a) && pt2_eqb (addp2 (fst v) (unit2 (snd v))) (sq_corner_off b)) ||
+   (pt2_eqb (fst v) (sq_corner_off b) && pt2_eqb (addp2 (fst v) (unit2 (snd v))) (sq_corner_off a))).
+Lemma sq_ledge_ends_ok_c : forallb sq_ledge_ends_check sq_edges4 = true.
+Proof. vm_compute. reflexivity. Qed.
+Lemma sq_ledge_ends e : (e < 4)%N ->
+  let '(a, b) := sq_pair_of e in
+  (a < 4)%N /\ (b < 4)%N /\
+  ((fst (sq_ledge e) = sq_corner_off a /\ addp2 (fst (sq_ledge e)) (unit2 (snd (sq_ledge e))) = sq_corner_off b) \/
+   (fst (sq_ledge e) = sq_corner_off b /\ addp2 (fst (sq_ledge e)) (unit2 (snd (sq_ledge e))) = sq_corner_off a)).
+Proof.
+  intros He. pose proof (forallb_sq_edges _ sq_ledge_ends_ok_c e He) as H. unfold sq_ledge_ends_check in H.
+  destruct (sq_pair_of e) as [a b]. cbv zeta in H.
+  rewrite !andb_true_iff, orb_true_iff, !andb_true_iff, !pt2_eqb_eq, !N.ltb_lt in H. tauto.
+Qed.
+Lemma addp2_assoc p q r : addp2 (addp2 p q) r = addp2 p (addp2 q r).
+Proof. destruct p, q, r. unfold addp2; cbn [fst snd]. f_equal; lia. Qed.
+Lemma in_chunk2 l a b : In (a, b) (chunk2 l) -> In a l /\ In b l.
+Proof.
+  revert l a b. fix IH 1. intros l a b. destruct l as [|x [|y r]]; cbn [chunk2]; try (intros F; contradiction).
+  intros [E|Hr].
+  - inversion E; subst. cbn; tauto.
+  - destruct (IH r a b Hr) as (Ha & Hb). cbn; tauto.
+Qed.
+
+(* soundness of the table checks *)
+Lemma sq_pairs_ok : sq_pairs_check = true.
+Proof. vm_compute. reflexivity. Qed.
+Lemma sq_edge_table_ok_c : sq_edge_table_check = true.
+Proof. vm_compute. reflexivity. Qed.
+Lemma line_table_ok_c : line_table_check = true.
+Proof. vm_compute. reflexivity. Qed.
+
+Lemma sq_edge_row_ok cfg : (cfg < 16)%N -> sq_edge_row_check cfg = true.
+Proof.
+  pose proof sq_edge_table_ok_c as H. unfold sq_edge_table_check in H. apply andb_true_iff in H as [_ H].
+  now apply forallb_sq_cfgs.
+Qed.
+Lemma sq_edge_table_ok cfg e : (cfg < 16)%N -> (e < 4)%N -> N.testbit (sq_edge_mask cfg) e = sq_crossing cfg e.
+Proof.
+  intros Hc He. pose proof (sq_edge_row_ok cfg Hc) as H. unfold sq_edge_row_check in H. apply andb_true_iff in H as [H _].
+  apply eqb_prop. now apply (forallb_sq_edges _ H).
+Qed.
+Lemma line_row_ok cfg : (cfg < 16)%N -> line_row_check cfg = true.
+Proof.
+  pose proof line_table_ok_c as H. unfold line_table_check in H. apply andb_true_iff in H as [_ H].
+  now apply forallb_sq_cfgs.
+Qed.
+Lemma lines_use_edges cfg e : (cfg < 16)%N -> In e (line_row cfg) -> (e < 4)%N.
+Proof.
+  intros Hc Hin. pose proof (line_row_ok cfg Hc) as H. unfold line_row_check in H. rewrite !andb_true_iff in H.
+  destruct H as [[_ H] _]. rewrite forallb_forall in H. apply N.ltb_lt. now apply H.
+Qed.
+Lemma ncount_pos e l : In e l -> (0 < ncount e l)%nat.
+Proof.
+  intros H. unfold ncount. assert (X : In e (filter (N.eqb e) l)) by (apply filter_In; split; [exact H | apply N.eqb_refl]).
+  destruct (filter (N.eqb e) l); [destruct X | cbn; lia].
+Qed.
+(* every sign-changing side is an end point of exactly one segment of the cell, other sides of none *)
+Lemma each_crossing_used_once cfg e : (cfg < 16)%N -> (e < 4)%N ->
+  ncount e (line_row cfg) = if sq_crossing cfg e then 1%nat else 0%nat.
+Proof.
+  intros Hc He. pose proof (line_row_ok cfg Hc) as H. unfold line_row_check in H. rewrite !andb_true_iff in H.
+  destruct H as [_ H]. apply Nat.eqb_eq. now apply (forallb_sq_edges _ H).
+Qed.
+Lemma lines_use_crossing_edges cfg e : (cfg < 16)%N -> In e (line_row cfg) -> (e < 4)%N /\ sq_crossing cfg e = true.
+Proof.
+  intros Hc Hin. pose proof (lines_use_edges cfg e Hc Hin) as He. split; [exact He|].
+  pose proof (each_crossing_used_once cfg e Hc He) as H. pose proof (ncount_pos e _ Hin) as P.
+  destruct (sq_crossing cfg e); [reflexivity | lia].
+Qed.
+Lemma line_rows_whole cfg : (cfg < 16)%N -> (N.of_nat (length (line_row cfg)) mod 2 = 0)%N.
+Proof.
+  intros Hc. pose proof (line_row_ok cfg Hc) as H. unfold line_row_check in H. rewrite !andb_true_iff in H.
+  destruct H as [[H _] _]. now apply N.eqb_eq.
+Qed.
+Lemma sq_nonempty cfg : (cfg < 16)%N -> cfg <> 0%N -> cfg <> 15%N -> local_lines cfg <> [].
+Proof.
+  intros Hc. assert (X : forallb (fun c => (c =? 0)%N || (c =? 15)%N || negb (length (local_lines c) =? 0)%nat) sq_cfgs = true)
+    by (vm_compute; reflexivity).
+  pose proof (forallb_sq_cfgs _ X cfg Hc) as H. cbn beta in H. intros H0 H15 E.
+  apply N.eqb_neq in H0, H15. rewrite H0, H15, E in H. discriminate.
+Qed.
